@@ -85,9 +85,11 @@ def main():
         shutil.rmtree(os.path.join(VERIF, ".work", "harness-" + __import__("hashlib").sha1(wt.encode()).hexdigest()[:10]), ignore_errors=True)
     dst = os.path.join(VERIF, "seeded", name)
     os.makedirs(dst, exist_ok=True)
-    shutil.copyfile(os.path.join(srcdir, "patch.diff"), os.path.join(dst, "patch.diff"))
-    for d in demos:
-        shutil.copyfile(d, os.path.join(dst, os.path.basename(d)))
+    same = os.path.abspath(srcdir) == os.path.abspath(dst)
+    if not same:
+        shutil.copyfile(os.path.join(srcdir, "patch.diff"), os.path.join(dst, "patch.diff"))
+        for d in demos:
+            shutil.copyfile(d, os.path.join(dst, os.path.basename(d)))
     meta = {}
     mp = os.path.join(srcdir, "meta.json")
     if os.path.exists(mp):
@@ -95,7 +97,8 @@ def main():
             meta = json.load(open(mp))
         except Exception:
             meta = dict(raw=open(mp).read())
-    meta["author_ran"] = meta.pop("ran", None)
+    if "ran" in meta:
+        meta["author_ran"] = meta.pop("ran", None)
     meta["confirmed_by_lead"] = res.get("confirmed")
     meta["lead_ran"] = ran
     meta["detected_by"] = {p: (r["exit"] == 1 and bool(r["violation_lines"])) for p, r in res["checks"].items()}
